@@ -63,3 +63,36 @@ Print Assumptions C17_unsafe_mode.
 Theorem C17_unsafe_adds : forall n, In n (added_globals graph_unsafe graph_safe) <-> In n [T "debug"].
 Proof. exact unsafe_adds. Qed.
 Print Assumptions C17_unsafe_adds.
+
+(* The same at load time - what the script's top-level chunk sees before validate is fetched (a capability captured there stays usable): default mode. *)
+Theorem C17_unset_load_time : sandboxed graph_unset_top = true.
+Proof. exact unset_top_sandboxed. Qed.
+Print Assumptions C17_unset_load_time.
+
+(* Load time, explicit sandboxed mode. *)
+Theorem C17_sandboxed_load_time : sandboxed graph_sandboxed_top = true.
+Proof. exact sandboxed_top_sandboxed. Qed.
+Print Assumptions C17_sandboxed_load_time.
+
+(* Load time, unrecognised mode value. *)
+Theorem C17_garbage_load_time : sandboxed graph_garbage_top = true.
+Proof. exact garbage_top_sandboxed. Qed.
+Print Assumptions C17_garbage_load_time.
+
+(* Load time, safe mode: io, os, package, no debug. *)
+Theorem C17_safe_load_time : safe_mode_ok graph_safe_top = true /\ has_global graph_safe_top (T "debug") = false.
+Proof. exact safe_top_ok. Qed.
+Print Assumptions C17_safe_load_time.
+
+(* Load time, unsafe mode. *)
+Theorem C17_unsafe_load_time : unsafe_mode_ok graph_unsafe_top = true.
+Proof. exact unsafe_top_ok. Qed.
+Print Assumptions C17_unsafe_load_time.
+
+(* Nothing is reachable at load time that is not reachable at call time. *)
+Theorem C17_load_time_within_call_time :
+  paths_within graph_unset_top graph_unset = true /\ paths_within graph_sandboxed_top graph_sandboxed = true /\
+  paths_within graph_garbage_top graph_garbage = true /\ paths_within graph_safe_top graph_safe = true /\
+  paths_within graph_unsafe_top graph_unsafe = true.
+Proof. exact top_within_call. Qed.
+Print Assumptions C17_load_time_within_call_time.
